@@ -36,6 +36,7 @@ class GovGen:
         ref = f"@{creator}-{k}"
         for a in ADMINS:
             self.ops.append(f"q obj role @{a}")      # who is an available governance admin when the proposal is created
+        self.ops.append(f"propose {creator}")      # lets the harness tie this attempt's number to the proposal it creates (if any)
         self.ops.append(f"block bvm {creator} {call}")
         self.ops.append(f"q prop {ref}")
         self.ops.append(f"q obj {mod} {obj}")
@@ -768,9 +769,25 @@ class LcGen(GovGen):
         self.ops.append(f"q status 1356:{f}-1356:{t}-{i}")
         self.tags.add("ibtp-probe")
 
+    def node_register(self):
+        """a validator node is registered (approved or rejected): its status is read back; an approved registration makes the
+        executor publish a node event"""
+        r = self.r
+        k = getattr(self, "nodes", 0)
+        self.nodes = k + 1
+        acct_ = f"n{8 - k}"
+        self.submit(r.choice(ADMINS), f"node RegisterNode s:@{acct_} s:vpNode s:QmXi58fp9ZczF3Z5iz1yXAez3Hy5NYo1R8STHWKEM9XnT{'LMNPQ'[k % 5]} u:{5 + k} s:{acct_} s:~ s:reason",
+                    "node-register", "node", "@" + acct_)
+        ref, kind, mod, obj = self.props[-1]
+        self.vote_all(ref, mod, obj, r.choice(["approve", "approve", "reject"]))
+        self.ops.append(f"q obj node {obj}")
+        self.tags.add("node-register")
+
     def govern(self):
         r = self.r
         k = r.random()
+        if r.random() < 0.08 and getattr(self, "nodes", 0) < 2:
+            return self.node_register()
         if k < 0.45:
             s = r.choice(SVC)
             c = s.split(":")[0]
